@@ -37,8 +37,10 @@ def race_stress(res, work, tier):
 def run(tier, seed):
     import m5check
     m5check.TIME_VIEW = True        # C03's traces must also be behaviours of the timing view (command-level theorems C03cmd.v)
+    m5check.CMD_VIEW = True         # ... and, recorded with the exact command <-> drain linkage events, of model/M5cmd.v (C03link.v)
+    m5.LINK_EVENTS = True
     return run_property(
-        "C03", tier, seed, ["C03.v", "C03cmd.v"], "C03corr", "c03_check", PROFILES, n_quick=36, n_thorough=1200,
+        "C03", tier, seed, ["C03.v", "C03cmd.v", "C03link.v"], "C03corr", "c03_check", PROFILES, n_quick=36, n_thorough=1200,
         codes={"1": "a request was still being served by a drained target when the command returned (not cut off)",
                "2": "a request was sent to a drained target after the command returned",
                "3": "a request was cut off before mark + drain timeout", "4": "a cut-off request was not answered 504",
